@@ -76,6 +76,7 @@ def comp : Component where
       ({ st' with o := o' }, line4 (show_ o' ++ " Q=" ++ (if o'.main == .finished ∧ st.q.any (·.2.2) then "inCall" else qStr st')) "-" "*" tags)
     match f with
     | ["begin", rw, want, canc] =>
+      if st.active ∧ st.o.main != .finished then (st, line4 (show_ st.o ++ " Q=" ++ qStr st) "-" "*" "begin-ignored ") else
       let isRead := rw == "r"
       -- bytes the wrapped connection still holds carry over; so would a leftover deadline
       let st1 := if st.active then (if st.isRead then { st with rAvail := st.o.avail } else { st with wAvail := st.o.avail }) else st
